@@ -19,7 +19,10 @@ SCHEMA = [Opt("i", "int", 0, 7, "w"), Opt("s", "str", 0, b"d", "w"), Opt("f", "f
           Opt("fl", "float", LIST, [b"0.5", b"2"]), Opt("bl", "bool", LIST, [b"true"]),
           Opt("m", "sec", MULTI | TITLE, None, "-", [Opt("x", "int", 0, 3)]),
           Opt("one", "sec", 0, None, "-", [Opt("w", "int", 0, 1)]),
-          Opt("n", "sec", MULTI, None, "-", [Opt("y", "int", 0, 4)])]
+          Opt("n", "sec", MULTI, None, "-", [Opt("y", "int", 0, 4)]),
+          # CFG_SIMPLE_*: the value is a variable of the caller's; a refused update leaves that variable alone too
+          Opt("si", "int", 0, 5, "s"), Opt("ss", "str", 0, b"init", "s"), Opt("sf", "float", 0, 0.5, "s"), Opt("sb", "bool", 0, True, "s"),
+          Opt("sw", "int", 0, 6, "sw")]
 
 # state preparations per option
 def preps(maxn):
@@ -28,7 +31,8 @@ def preps(maxn):
                   "SL 0 %s 4 5 6" % hx("l"), "SL 0 %s %s" % (hx("sl"), hx("z")), "AL 0 %s 9" % hx("e"),
                   "SM 0 %s %s %s %s" % (hx("fl"), hx("1"), hx("2"), hx("3")), "SM 0 %s %s" % (hx("bl"), hx("no")), "AT 0 %s %s" % (hx("m"), hx("a")),
                   "AT 0 %s %s" % (hx("m"), hx("b")), "SI 0 %s 0 2" % hx("one|w"),
-                  "PB 0 " + hx(b"n { y = 1 } n { y = 2 } n { y = 3 }\n")]
+                  "PB 0 " + hx(b"n { y = 1 } n { y = 2 } n { y = 3 }\n"),
+                  "SI 0 %s 0 8" % hx("si"), "PB 0 " + hx(b"ss = parsed sb = off\n"), "SF 0 %s 0 %s" % (hx("sf"), dbits(4.0))]
     # a titled multi section whose FIRST instance has no title (cfg_setopt(cfg, opt, NULL) on the empty option):
     # lookups by title stop at it, the duplicate check of an add must not
     out["untitled_first"] = ["SO 0 %s -" % hx("m"), "AT 0 %s %s" % (hx("m"), hx("a")), "SI 0 %s 0 42" % hx("m='a'|x")]
@@ -58,6 +62,9 @@ def refusing(maxpos):
         bv[pos] = hx("1")
         ops.append(("setmulti_boollist_bad@%d" % pos, "SM 0 %s %s" % (hx("bl"), " ".join(bv))))
         ops.append(("setmulti_bool_bad@%d" % pos, "SM 0 %s %s" % (hx("b"), " ".join(bv[:pos + 1]))))
+        ops.append(("setmulti_simple_int_bad@%d" % pos, "SM 0 %s %s" % (hx("si"), " ".join(vals[:pos + 1]))))
+        ops.append(("setmulti_simple_float_bad@%d" % pos, "SM 0 %s %s" % (hx("sf"), " ".join(fv[:pos] + [hx("2.5.")]))))
+        ops.append(("setmulti_simple_bool_bad@%d" % pos, "SM 0 %s %s" % (hx("sb"), " ".join(bv[:pos + 1]))))
     ops += [("veto_int", "SI 0 %s 0 -4" % hx("i")), ("veto_int_list", "SI 0 %s 1 -4" % hx("l")), ("veto_str", "SS 0 %s 0 %s" % (hx("s"), hx("!no"))),
             ("wrong_type", "SI 0 %s 0 1" % hx("s")), ("wrong_type2", "SS 0 %s 0 %s" % (hx("i"), hx("q"))), ("wrong_type3", "SB 0 %s 0 1" % hx("l")),
             ("bad_index", "SI 0 %s 3 1" % hx("i")), ("bad_index_str", "SS 0 %s 1 %s" % (hx("s"), hx("q"))),
@@ -70,7 +77,11 @@ def refusing(maxpos):
             ("rmsec_idx_2^32+1", "RS 0 %s" % hx("n=4294967297")), ("rmsec_idx_hex", "RS 0 %s" % hx("n=0x100000002")),
             ("rmsec_idx_2^64", "RS 0 %s" % hx("n=18446744073709551616")), ("rmsec_idx_junk", "RS 0 %s" % hx("n=1x")),
             ("rmnsec_idx_3", "RN 0 %s 3" % hx("n")), ("setn_path_2^32", "SI 0 %s 0 9" % hx("n=4294967296|y")),
-            ("setmulti_empty", "SM 0 %s" % hx("l")), ("setlist_nonlist", "SL 0 %s 1" % hx("i")), ("unknown_name", "SI 0 %s 0 1" % hx("zz"))]
+            ("setmulti_empty", "SM 0 %s" % hx("l")), ("setlist_nonlist", "SL 0 %s 1" % hx("i")), ("unknown_name", "SI 0 %s 0 1" % hx("zz")),
+            ("simple_setopt_bad", "SO 0 %s %s" % (hx("si"), hx("9x"))), ("simple_wrong_type", "SS 0 %s 0 %s" % (hx("si"), hx("q"))),
+            ("simple_bad_index", "SI 0 %s 1 3" % hx("si")), ("simple_str_bad_index", "SS 0 %s 2 %s" % (hx("ss"), hx("q"))),
+            ("simple_veto", "SI 0 %s 0 -4" % hx("sw")),
+            ("simple_setlist", "SL 0 %s 1" % hx("si"))]
     return ops
 
 
